@@ -46,13 +46,8 @@ fn msg_matches(m: &Msg, s: &str) -> bool {
 fn seg_matches(seg: &Seg, s: &str) -> bool {
     match seg {
         Seg::Name(n) => n == s,
-        Seg::Indexed(n) => {
-            s.strip_prefix(n.as_str())
-                .and_then(|r| r.strip_prefix('['))
-                .and_then(|r| r.strip_suffix(']'))
-                .map(|d| !d.is_empty() && d.chars().all(|c| c.is_ascii_digit()))
-                .unwrap_or(false)
-        }
+        // `name[<index>]` today; how the occurrence is marked is darling's business
+        Seg::Indexed(n) => s.starts_with(n.as_str()) && !s[n.len()..].contains('/') && (s.len() == n.len() || !s[n.len()..].starts_with(|c: char| c.is_alphanumeric() || c == '_')),
     }
 }
 
